@@ -485,6 +485,9 @@ func genOp(r *Rand, which int, id uint32, edge bool) OpCase {
 		return simple("ClearTaskList", 0xa6, fmt.Sprintf("ClearTaskList %d", id), "ClearTaskListResponse", func(u uhppote.IUHPPOTE) string { return okBool(u.ClearTaskList(id)) })
 	case 19:
 		from, to := genDateArg(r, true), genDateArg(r, true)
+		if r.Intn(3) == 0 { // a task for a single day
+			to = from
+		}
 		w, wc := genWeekdays(r)
 		h, m := genHM(r, edge)
 		tt := r.Intn(13)
